@@ -98,15 +98,7 @@ def recompose(files, table_rel, display_name):
     return exp
 
 
-def work(item):
-    bse = import_bse()
-    key, ver, data_dir, table_rel, display = item[:5]
-    siblings = item[5] if len(item) > 5 else []
-    out = dict(key=key, ver=ver, table=table_rel)
-    kw = {} if data_dir is None else dict(data_dir=data_dir)
-    dd = data_dir or bse.get_data_dir()
-    # a prior call history in this process: basis sets that share element files with this one are retrieved first with options that
-    # rewrite their (private) copy in place, and the values handed out are scribbled over.  None of this may show in what follows.
+def prior_history(bse, siblings, kw):
     for sk, sv in siblings:
         try:
             h = bse.get_basis(sk, version=sv, uncontract_segmented=True, uncontract_spdf=True, **kw)
@@ -118,7 +110,30 @@ def work(item):
             h2['elements'].clear()
         except Exception:
             pass
-    out['history'] = len(siblings)
+
+
+def work(item):
+    bse = import_bse()
+    key, ver, data_dir, table_rel, display = item[:5]
+    siblings = item[5] if len(item) > 5 else []
+    out = dict(key=key, ver=ver, table=table_rel)
+    kw = {} if data_dir is None else dict(data_dir=data_dir)
+    dd = data_dir or bse.get_data_dir()
+    # a prior call history in this process: basis sets that share element files with this one are retrieved first with options that
+    # rewrite their (private) copy in place, and the values handed out are scribbled over.  None of this may show in what follows.
+    prior_history(bse, siblings, kw)
+    for sk, sv in []:
+        try:
+            h = bse.get_basis(sk, version=sv, uncontract_segmented=True, uncontract_spdf=True, **kw)
+            h2 = bse.get_basis(sk, version=sv, **kw)
+            for el in h2['elements'].values():
+                for shl in el.get('electron_shells', []):
+                    shl['exponents'].clear()
+                el.pop('references', None)
+            h2['elements'].clear()
+        except Exception:
+            pass
+    out['history'] = [list(x) for x in siblings]
     try:
         r = bse.get_basis(key, version=ver, **kw)
         out['impl'] = ('ok', odump(r))
@@ -149,7 +164,7 @@ def judge(R, ctx, outs, site, expect_error=None):
     reqs, meta = [], []
     for o in outs:
         R.ev()
-        w = dict(name=o['key'], version=o['ver'], table=o['table'])
+        w = dict(name=o['key'], version=o['ver'], table=o['table'], history=o.get('history', []))
         impl, spec = o['impl'], o['spec']
         if impl[0] == 'ok':
             if o.get('int_version_same') is False:
@@ -270,6 +285,7 @@ def replay(ctx, payload):
     e = md[w['name']]
     files = closure(bse.get_data_dir(), e['versions'][w['version']]['file_relpath'])
     sp = recompose(files, e['versions'][w['version']]['file_relpath'], e['display_name'])
+    prior_history(bse, [tuple(x) for x in w.get('history', [])], {})
     r = bse.get_basis(w['name'], version=w['version'])
     ok = odump(sp) == odump(r)
     print('get_basis equals designated data:', ok)
